@@ -800,6 +800,7 @@ func typedRewrites(fset *token.FileSet, f *ast.File, info *types.Info, ed *edito
 					}
 				}
 			case *ast.SelectStmt:
+				pkgHasSelect = true
 				report.ChanOps = append(report.ChanOps, where(x)+" select")
 				// receives that are the communication of a select case stay as they are
 				for _, cl := range x.Body.List {
@@ -965,6 +966,8 @@ func insertYields(fset *token.FileSet, f *ast.File, ed *editor, fn, root, pkg st
 // writeReset generates zz_verif_reset.go: ResetGlobals re-assigns every package level
 // variable from its initialiser text (in go/types' initialisation order), zeroes the
 // ones without initialiser, and re-runs init functions.
+var pkgHasSelect bool
+
 func writeReset(dir, pkgName string, files []string, final map[string][]byte, inits []initRec) {
 	fset := token.NewFileSet()
 	type specInfo struct {
@@ -1114,6 +1117,9 @@ func writeReset(dir, pkgName string, files []string, final map[string][]byte, in
 	b.WriteString("func init() {\n")
 	for _, nm := range initFuncs {
 		b.WriteString("\t" + nm + "()\n")
+	}
+	if pkgHasSelect {
+		b.WriteString("\t" + rtImportName + ".HasSelect = true\n")
 	}
 	b.WriteString("\t" + rtImportName + ".RegisterReset(zzVerifResetGlobals)\n}\n\n")
 	b.WriteString("func zzVerifResetGlobals() {\n")
@@ -1317,6 +1323,14 @@ func pendFree(i int) { pendTab[i] = pendEnt{} }
 //go:norace
 func pendReset() { pendTab = [64]pendEnt{} }
 
+// HasSelect is set (by the generated reset file's init) when an instrumented package
+// contains a select statement: select is not rewritten, so it can only see real channel
+// traffic; sends and receives on unbuffered channels then stay real (blocking) operations
+// instead of using the pending table. A client that really blocks makes the simulator
+// lose control (exit 2), which is honest; a polling select that never sees a parked value
+// would be a false "no-return".
+var HasSelect bool
+
 // Send replaces ch <- v.
 func Send(ch interface{}, v interface{}) {
 	rv := reflect.ValueOf(ch)
@@ -1341,6 +1355,10 @@ func Send(ch interface{}, v interface{}) {
 		}
 		return
 	}
+	if HasSelect {
+		rv.Send(val)
+		return
+	}
 	slot := pendPut(rv.Pointer(), val.Interface())
 	if slot < 0 {
 		rv.Send(val) // table full: give up control rather than invent semantics
@@ -1360,6 +1378,10 @@ func Send(ch interface{}, v interface{}) {
 func Recv2(ch interface{}) (interface{}, bool) {
 	rv := reflect.ValueOf(ch)
 	if !simulating() {
+		v, ok := rv.Recv()
+		return v.Interface(), ok
+	}
+	if HasSelect && rv.Cap() == 0 {
 		v, ok := rv.Recv()
 		return v.Interface(), ok
 	}
